@@ -258,3 +258,6 @@ def run(tier, seed):
     col = run_shards(_shard, shards)
     return col, {"exhaustive": True, "scope": "lattice only (finite set of box points)",
                  "position_levels": POS, "distance_levels": DIST}
+
+
+RULE += (' Evaluation sequences also with a caller that only keeps the returned lists (no modification), so a shared result buffer is visible.')
